@@ -199,6 +199,46 @@ def validate_traces(trace_module, events, workdir, chunk=20000, cfg=None):
     return verdicts, len(events), cmd
 
 
+# --------------------------------------------------------------------------- robustness of the drivers
+
+def broken_event(eid, item, ex):
+    import traceback
+    return {"id": eid, "broken": True, "item": repr(item)[:1500], "error": "%s: %s" % (type(ex).__name__, ex),
+            "where": traceback.format_exc().splitlines()[-3:]}
+
+
+class Guarded:
+    """Wraps a job function (items, ...) -> events so that an exception raised OUTSIDE the guarded call under test (while
+    building inputs or reading results back - which only happens when the code under test misbehaves) yields a 'broken'
+    event for that item instead of killing the run.  pos: index of the item list in the job tuple."""
+
+    def __init__(self, fn, pos=0):
+        self.fn = fn
+        self.pos = pos
+
+    def __call__(self, job):
+        out = []
+        job = list(job)
+        for it in job[self.pos]:
+            one = list(job)
+            one[self.pos] = [it]
+            try:
+                out.extend(self.fn(tuple(one)))
+            except MachineryError:
+                raise
+            except Exception as ex:  # noqa
+                out.append(broken_event(0, it, ex))
+        return out
+
+
+def split_broken(res, prop, events):
+    good = [e for e in events if not e.get("broken")]
+    for e in events:
+        if e.get("broken"):
+            res.violations.append((prop + "_api_call_sequence_crashed_outside_the_call_under_test", e))
+    return good
+
+
 # --------------------------------------------------------------------------- findings
 
 def load_findings():
